@@ -528,6 +528,28 @@ fn gen_c10(out: &mut Out, rng: &mut Rng, thorough: bool) {
             }
         }
     }
+    // automatic mode on every byte value inside digit / alphanumeric context (the classifier and the
+    // encoders must agree on every character), and on class patterns with one odd character
+    for b in 0..=255u8 {
+        for ctx in 0..3 {
+            let inp: Vec<u8> = match ctx {
+                0 => vec![b],
+                1 => vec![b'A', b, b'1'],
+                _ => vec![b'1', b'2', b],
+            };
+            let o = Opts { ecl: if b % 2 == 0 { Some((b % 4) as usize) } else { None }, mode: None, version: None, mask: None };
+            out.job(move || build_line(&inp, o));
+        }
+    }
+    for _ in 0..(if thorough { 3000 } else { 200 }) {
+        let base = rng.below(2);
+        let len = rng.range(1, 400);
+        let mut inp = content(rng, base, len);
+        let pos = rng.below(len);
+        inp[pos] = *rng.pick(REP_OTHER);
+        let o = Opts { ecl: Some(rng.below(4)), mode: None, version: None, mask: None };
+        out.job(move || build_line(&inp, o));
+    }
     // malformed stream
     for _ in 0..(if thorough { 600 } else { 80 }) {
         let len = rng.range(1, 300);
@@ -735,9 +757,13 @@ pub fn term_line(input: &[u8], o: Opts) -> String {
 
 fn gen_c16(out: &mut Out, rng: &mut Rng, thorough: bool) {
     let caps = caps();
-    for v in 0..40usize {
-        let reps = if thorough { 50 } else { 3 };
-        for k in 0..reps {
+    // sizes in a scrambled order: every worker thread renders larger and smaller symbols alternately, so
+    // state carried from one render to the next would show
+    let reps = if thorough { 50 } else { 3 };
+    for k in 0..reps {
+        for j in 0..40usize {
+            let v = (j * 17 + k * 7) % 40;
+            {
             let e = rng.below(4);
             let md = rng.below(3);
             let len = if k == 0 { caps[md][e][v] } else { rng.range(0, caps[md][e][v]) };
@@ -745,6 +771,7 @@ fn gen_c16(out: &mut Out, rng: &mut Rng, thorough: bool) {
             let mask = if rng.chance(1, 3) { None } else { Some(rng.below(8)) };
             let o = Opts { ecl: Some(e), mode: Some(md), version: Some(v), mask };
             out.job(move || term_line(&inp, o));
+            }
         }
     }
 }
